@@ -233,6 +233,14 @@ def sweep(prop, res, m0, series_list, cfgs, key, sample_every=997):
             r['sample'] = {'series': tq.describe_series(s), 'args': wsweep.cfg_args(cfg), 'threads': cfg.get('threads', 1), 'outcome': sorted(r.get('outcomes', {}))}
         acc.add(r)
     acc.finish(key)
+    # determinism is checked, not assumed: every 97th case is executed again and must give identical observations
+    probe = list(range(0, len(tasks), 97))
+    again = wsweep.pmap(series_case, [tasks[i] for i in probe])
+    strip = lambda r: (r.get('outcomes'), [(c, m) for c, m, _ in r.get('violations', [])])
+    diff = [i for i, r2 in zip(probe, again) if strip(r2) != strip(results[i])]
+    res.coverage[key]['determinism_probe'] = {'reexecuted': len(probe), 'differing': len(diff)}
+    if diff:
+        res.machinery_errors.append('nondeterministic outcome on re-execution of %d of %d probed cases (first: %s)' % (len(diff), len(probe), tq.describe_series(tasks[diff[0]][2])))
     return acc
 
 
